@@ -236,6 +236,16 @@ def run(ctx):
             ctx.check('GroupedList.contains#post.nan_member_found', 'GroupedList.contains', bool(g.contains(probe)), w, 'contains(NaN) is False')
             g2 = g.sort_by(list(reversed(list(g))))
             ctx.check('GroupedList.get_group#post.nan_member_found', 'GroupedList.get_group', g2.get_group(probe) == leader, dict(w, after='sort_by'), 'after sort_by')
+    # the container of the initial sequence does not matter: list, numpy array (object / str / float dtype: converted to a list first), GroupedList give the same object, in the given order
+    for xs in (['b', 'a', 'c'], ['zeta', 'alpha', 'mid', 'beta'], [3.0, 1.0, 2.0], ['x'], []):
+        ref = GL(list(xs)); refv = (list(map(repr, ref)), {repr(k): list(map(repr, v)) for k, v in ref.content.items()})
+        for cname, mk in (('ndarray_object', lambda v: np.array(v, dtype=object)), ('ndarray', lambda v: np.array(v)), ('GroupedList', lambda v: GL(list(v)))):
+            w = dict(history=[('init', cname, repr(xs))])
+            try:
+                g = GL(mk(xs)); got = ([repr(x.item() if hasattr(x, 'item') else x) for x in g], {repr(k.item() if hasattr(k, 'item') else k): [repr(x.item() if hasattr(x, 'item') else x) for x in v] for k, v in g.content.items()})
+                ctx.check('GroupedList.__init__#post.same_object_whatever_the_container', 'GroupedList.__init__', got == refv, w, 'GroupedList(%s(%r)) is %r, GroupedList(list) is %r' % (cname, xs, got, refv))
+            except Exception as e:
+                ctx.check('GroupedList.__init__#post.same_object_whatever_the_container', 'GroupedList.__init__', False, w, 'GroupedList(%s(%r)) raised %s' % (cname, xs, e))
     # a missing-value LEADER grouped with itself (the library's idiom group_list([..., kept], kept)) is a no-op
     for nan_ in (float('nan'), np.nan):
         g = GL(['a', nan_, 'b']); before = (list(map(repr, g)), {repr(k): list(map(repr, v)) for k, v in g.content.items()})
